@@ -62,7 +62,7 @@ func fixedData(s, t uint64) *rules.SignBeaconAttestationData {
 
 // l3 runs k requests for account W/a through the real signer and asserts that
 // no two released signatures for its key are slashable against each other.
-func l3(k int) {
+func l3(k int, narrow bool) {
 	ctx := context.Background()
 	dir := vsym.TempDir("A")
 	log := &stubs.Log{}
@@ -88,14 +88,23 @@ func l3(k int) {
 		// addressing: by name, by the exact public key, or by a longer byte string that still
 		// resolves to the account (the fetcher only looks at the first 48 bytes)
 		name, pk := "W/a", []byte(nil)
-		switch vsym.Choose("bykey"+tag, 3) {
+		nby, nep := 3, 3
+		if narrow {
+			// three steps: the first is a single request by name, the later ones are single or
+			// batch, by name or by the over-long key
+			nby, nep = 2, 2
+			if step == 0 {
+				nby, nep = 1, 1
+			}
+		}
+		switch vsym.Choose("bykey"+tag, nby) {
 		case 1:
-			name, pk = "", keyA[:]
-		case 2:
 			name, pk = "", append(append([]byte(nil), keyA[:]...), 0x00)
+		case 2:
+			name, pk = "", keyA[:]
 		}
 		nsigs := len(log.Signs)
-		switch vsym.Choose("endpoint"+tag, 3) {
+		switch vsym.Choose("endpoint"+tag, nep) {
 		case 0: // single
 			res, sig := in.signer.SignBeaconAttestation(ctx, creds, name, pk, attData(tag, s, t))
 			vsym.Assert("S1-signature-iff-succeeded", (sig != nil) == (res == core.ResultSucceeded))
@@ -151,5 +160,5 @@ func l3(k int) {
 	vsym.Out("signs", len(log.Signs))
 }
 
-func L3Two()   { l3(2) }
-func L3Three() { l3(3) }
+func L3Two()   { l3(2, false) }
+func L3Three() { l3(3, true) }
